@@ -82,6 +82,24 @@ def verify_one(args):
                 h = hashlib.sha1(text.encode()).hexdigest()
                 name = ob_name(key, ob, fi.node.lineno)
                 jobs.setdefault(h, dict(text=text, names=set(), trace=p.trace, goal=ob.goal))['names'].add(name)
+        # vacuity guard: a path whose final path condition is unsatisfiable discharges everything on it for no reason.
+        # Dead paths are counted (the baseline remembers how many there were); a function with no live path is not proved.
+        from . import smt
+
+        def fwork(pi):
+            p = fr.paths[pi]
+            r = smt.solve_text(smt_text(p.decls, p.pc, None), 1, ('z3',))
+            return pi, r.verdict
+        fv = {}
+        with ThreadPoolExecutor(max_workers=threads) as ex:
+            for pi, v in ex.map(fwork, range(len(fr.paths))):
+                fv[pi] = v
+        out['dead_paths'] = sum(1 for v in fv.values() if v == 'unsat')
+        out['live_paths'] = sum(1 for v in fv.values() if v == 'sat')
+        out['dead_list'] = [' '.join(str(x) for x in fr.paths[pi].decisions) for pi, v in sorted(fv.items()) if v == 'unsat'][:40]
+        if fr.paths and out['dead_paths'] == len(fr.paths) and not out['unsupported']:
+            out['unsupported'] = ('vacuity guard: every path of the function is infeasible under the assumptions of its contract and of the '
+                                  'engine (contradictory requires, invariant or library model): nothing is proved')
         out['lib'] = sorted(lib)
         out['inlined'] = sorted(inl)
         out['called'] = sorted(called)
@@ -162,7 +180,7 @@ def make_baseline(results):
                            proved=(not r['unsupported'] and not r['error']
                                                  and all(o['verdict'] == 'unsat' for o in r['obligations'])),
                            discharged=sorted(o['name'] for o in r['obligations'] if o['verdict'] == 'unsat'),
-                           n=len(r['obligations']), loops=r.get('loops'))
+                           n=len(r['obligations']), loops=r.get('loops'), dead=r.get('dead_paths', 0))
     return b
 
 
@@ -179,6 +197,19 @@ def classify(results, baseline):
         if r['unsupported']:
             out['demoted'].append(dict(key=r['key'], reason=r['unsupported'], was_proved=was_proved,
                                        changed=(b.get('sha') != r['sha'])))
+        elif b.get('dead') is not None and r.get('dead_paths', 0) > b['dead']:
+            # vacuity guard: more infeasible paths than when the baseline was taken -- what they discharge is not believed
+            out['demoted'].append(dict(key=r['key'], was_proved=was_proved, changed=(b.get('sha') != r['sha']),
+                                       reason='vacuity guard: %d infeasible paths, %d when the baseline was taken'
+                                              % (r.get('dead_paths', 0), b['dead'])))
+            for o in r['obligations']:
+                out['total'] += 1
+                if o['verdict'] == 'unsat':
+                    out['discharged'] += 1
+                else:
+                    out['undecided'].append(dict(key=r['key'], name=o['name'], verdict=o['verdict'], output=o['output'], smt=o['smt'],
+                                                 trace=o['trace'], changed=True))
+            continue
         elif b.get('loops') is not None and r.get('loops') is not None and b['loops'] != r['loops']:
             # loop annotations are keyed by ordinal: with another number of loops they no longer describe this body.
             # An undischarged obligation then says nothing about the property (undecided, not a violation).
